@@ -705,6 +705,12 @@ func (zp *ZoneParser) Next() (RR, bool) {
 				return nil, false
 			}
 
+			// So does a lexer error (an extra closing brace): rdata parsers that
+			// skip blanks take its token for one and see the end of the record.
+			if zp.c.l.err {
+				return zp.setParseError(zp.c.l.token, zp.c.l)
+			}
+
 			if parseAsRFC3597 {
 				err := parseAsRR.(*RFC3597).fromRFC3597(rr)
 				if err != nil {
